@@ -230,17 +230,27 @@ func runBoundaryStreams(c *run.Ctx, r *kit.Rng, s *kit.Summary, cd codec, n int)
 		haveVegeta = true
 	}
 	bands := [][2]int{{2500, 5000}, {7000, 9000}, {30000, 34000}, {45000, 52000}, {60000, 70000}, {70000, 100000}, {100000, 140000}, {180000, 270000}}
-	for i := 0; i < n; i++ {
+	// very large FIRST records: encoded sizes straddling 1 MiB and beyond (2–2.5 MiB, around 4 MiB)
+	huge := [][2]int{{950000, 1350000}, {2100000, 2600000}, {3900000, 4600000}}
+	nHuge := c.N(2, 9)
+	for i := 0; i < n+nHuge; i++ {
 		rs := genStream(r, cd, 0)
 		k := r.Pick(len(rs))
 		if (i+i/len(gen.BigFieldKinds))%2 == 0 {
 			k = 0 // the large record comes FIRST (what the format detection has to get through)
 		}
 		band := bands[(i/len(gen.BigFieldKinds))%len(bands)] // every (band, field) combination in turn
+		kind := gen.BigFieldKinds[i%len(gen.BigFieldKinds)]
+		if i >= n {
+			band, k, kind = huge[(i-n)%len(huge)], 0, "body"
+			if len(rs) > 3 {
+				rs = rs[:3]
+			}
+			s.Count(cd.name + ":boundary-stream first record around " + []string{"1 MiB", "2 MiB", "4 MiB"}[(i-n)%len(huge)])
+		}
 		enc := band[0] + r.Pick(band[1]-band[0])
 		// the record is made large through its body or through a text / the headers (fields that the
 		// encoders write before and after the body)
-		kind := gen.BigFieldKinds[i%len(gen.BigFieldKinds)]
 		to := gen.TextOpts{CR: cd.name != "csv", CRLF: cd.name != "csv"}
 		switch {
 		case kind == "body" && cd.name != "gob":
@@ -295,7 +305,7 @@ func runBoundaryStreams(c *run.Ctx, r *kit.Rng, s *kit.Summary, cd codec, n int)
 			}
 		}
 		// … and through the `encode` command: the complete stream and the stream cut after its first record
-		if haveVegeta && i%2 == 0 {
+		if haveVegeta && (i%2 == 0 || i >= n) {
 			for v, cut := range []int{len(st.data), st.bounds[0]} {
 				want := len(rs)
 				if v == 1 {
